@@ -4,6 +4,7 @@ import (
 	"runtime/debug"
 	"sort"
 	"strings"
+	"time"
 
 	sdk "github.com/cosmos/cosmos-sdk/types"
 
@@ -306,6 +307,172 @@ func (w *world) exitEverybody(st simcore.Step, stepIdx int) bool {
 			}
 			if bound.IsPositive() {
 				run.Max("max/c01-dust-used-permille", left.MulRaw(1000).Quo(bound).Int64())
+			}
+		}
+	}
+	return true
+}
+
+// ---- incentives accrue with time, to in-range liquidity only, pro rata, and never more than the records emit ----
+
+type idlePool struct {
+	p       *refPool
+	tick    int64
+	liq     osmomath.Dec
+	llu     time.Time
+	t0      time.Time
+	records []cltypes.IncentiveRecord
+	claims  map[uint64]sdk.Coins // collected + forfeitable, per position
+}
+
+// idleSnapshot records, at the end of a block, what every position could claim and which incentive records exist.
+func (w *world) idleSnapshot() []idlePool {
+	n := w.n
+	k := n.App.ConcentratedLiquidityKeeper
+	var out []idlePool
+	defer func() {
+		if x := recover(); x != nil {
+			out = nil // a panicking query is reported by the per-step oracles
+		}
+	}()
+	for _, p := range w.pools {
+		if !p.hasGauge || len(w.poolPositions(p)) == 0 {
+			continue
+		}
+		pool, err := k.GetConcentratedPoolById(n.Ctx, p.id)
+		if err != nil {
+			continue
+		}
+		recs, err := k.GetAllIncentiveRecordsForPool(n.Ctx, p.id)
+		if err != nil {
+			continue
+		}
+		ip := idlePool{p: p, tick: pool.GetCurrentTick(), liq: pool.GetLiquidity(), llu: pool.GetLastLiquidityUpdate(), t0: n.Time, records: recs, claims: map[uint64]sdk.Coins{}}
+		okAll := true
+		for _, q := range w.poolPositions(p) {
+			c, f, err := k.GetClaimableIncentives(n.Ctx, q.id)
+			if err != nil {
+				okAll = false
+				break
+			}
+			ip.claims[q.id] = c.Add(f...)
+		}
+		if okAll {
+			out = append(out, ip)
+		}
+	}
+	return out
+}
+
+// idleAccrual compares what every position can claim after a pure time advance with what the records emit.
+func (w *world) idleAccrual(snap []idlePool, op string) (ok bool) {
+	defer w.appPanic("C08", op, &ok)
+	run, n := w.run, w.n
+	k := n.App.ConcentratedLiquidityKeeper
+	for _, ip := range snap {
+		p := ip.p
+		t1 := n.Time
+		// what the records emit over (t0, t1]: E_r(t) = min(rate * (t - lastUpdate), remaining), counted only once started
+		E := map[string]*rat{}
+		nrec := 0
+		emit := func(r cltypes.IncentiveRecord, t time.Time) *rat {
+			if !r.IncentiveRecordBody.StartTime.Before(t) || !t.After(ip.llu) {
+				return rnew()
+			}
+			secs := rnew().SetFrac64(int64(t.Sub(ip.llu)), 1_000_000_000)
+			e := rmul(decToRat(r.IncentiveRecordBody.EmissionRate), secs)
+			return rmin(e, decToRat(r.IncentiveRecordBody.RemainingCoin.Amount))
+		}
+		for _, r := range ip.records {
+			d := rsub(emit(r, t1), emit(r, ip.t0))
+			if d.Sign() > 0 {
+				den := r.IncentiveRecordBody.RemainingCoin.Denom
+				E[den] = radd(ratOr0(E[den]), d)
+				nrec++
+			}
+		}
+		active := !ip.liq.LT(osmomath.OneDec())
+		sum := map[string]*rat{}
+		type delta struct {
+			q *refPos
+			d sdk.Coins
+		}
+		var inRange []delta
+		for _, q := range w.poolPositions(p) {
+			before, tracked := ip.claims[q.id]
+			if !tracked {
+				continue
+			}
+			c, f, err := k.GetClaimableIncentives(n.Ctx, q.id)
+			if err != nil {
+				run.Fail("C08", "claimable-query", op, "incentives of position %d: %v", q.id, err)
+				return false
+			}
+			after := c.Add(f...)
+			if !after.IsAllGTE(before) {
+				run.Fail("C08", "claimable-incentives-shrank", op, "position %d could claim %s before the time advance and only %s after it", q.id, before, after)
+				return false
+			}
+			d := after.Sub(before...)
+			in := q.lower <= ip.tick && ip.tick < q.upper
+			if (!in || !active) && !d.IsZero() {
+				run.Fail("C08", "idle-accrual-out-of-range", op, "pool %d stood at tick %d with active liquidity %s for %s; position %d [%d,%d) was not earning, yet its claimable incentives grew by %s", p.id, ip.tick, ip.liq, t1.Sub(ip.t0), q.id, q.lower, q.upper, d)
+				return false
+			}
+			if in {
+				inRange = append(inRange, delta{q, d})
+				for _, coin := range d {
+					sum[coin.Denom] = radd(ratOr0(sum[coin.Denom]), rfromInt(coin.Amount.BigInt()))
+				}
+			}
+		}
+		if len(inRange) == 0 || !active {
+			continue
+		}
+		run.Probe("idle-accrual-checked")
+		scale := rint(1)
+		if p.scaled {
+			scale = rfromInt(pow10(27).BigInt())
+		}
+		// growth per unit of liquidity is truncated at 18 digits per record (times the active liquidity, over the scaling
+		// factor); every position's claim truncates once per uptime accumulator, in the query before and in the one after
+		slackDown := radd(rmul(rint(int64(nrec)), radd(rquo(rquo(decToRat(ip.liq), rfromInt(pow10(18).BigInt())), scale), rint(1))), rint(int64(12*len(inRange))))
+		// the same truncation hits the "before" figure (it is computed by its own sync over a shorter interval), so the
+		// growth between the two queries can also exceed the emission by that much
+		slackUp := radd(rmul(rint(int64(nrec)), radd(rquo(rquo(decToRat(ip.liq), rfromInt(pow10(18).BigInt())), scale), rint(1))), rint(int64(6*len(inRange))))
+		dens := map[string]bool{}
+		for d := range E {
+			dens[d] = true
+		}
+		for d := range sum {
+			dens[d] = true
+		}
+		for d := range dens {
+			e, s := ratOr0(E[d]), ratOr0(sum[d])
+			if s.Cmp(radd(e, slackUp)) > 0 {
+				run.Fail("C08", "idle-accrual-exceeds-emission", op, "pool %d: over %s the incentive records emit %s%s, the in-range positions' claimable incentives grew by %s", p.id, t1.Sub(ip.t0), e.FloatString(3), d, s.FloatString(0))
+				return false
+			}
+			if s.Cmp(rsub(e, slackDown)) < 0 {
+				run.Fail("C08", "idle-accrual-below-emission", op, "pool %d: over %s the incentive records emit %s%s, the in-range positions' claimable incentives grew by only %s (truncation allowance %s)", p.id, t1.Sub(ip.t0), e.FloatString(3), d, s.FloatString(0), slackDown.FloatString(3))
+				return false
+			}
+		}
+		// pro rata: for in-range positions i, j: |d_i * L_j - d_j * L_i| <= 13 * (L_i + L_j)
+		for a := 0; a < len(inRange); a++ {
+			for b := a + 1; b < len(inRange); b++ {
+				x, y := inRange[a], inRange[b]
+				lx, ly := decToRat(x.q.liq), decToRat(y.q.liq)
+				for d := range dens {
+					l := rmul(rfromInt(x.d.AmountOf(d).BigInt()), ly)
+					r := rmul(rfromInt(y.d.AmountOf(d).BigInt()), lx)
+					diff := rsub(l, r)
+					diff.Abs(diff)
+					if diff.Cmp(rmul(radd(lx, ly), rint(13))) > 0 {
+						run.Fail("C08", "idle-accrual-not-pro-rata", op, "pool %d: positions %d (liquidity %s) and %d (liquidity %s) were both in range for %s but their claimable incentives grew by %s%s and %s%s", p.id, x.q.id, x.q.liq, y.q.id, y.q.liq, t1.Sub(ip.t0), x.d.AmountOf(d), d, y.d.AmountOf(d), d)
+						return false
+					}
+				}
 			}
 		}
 	}
